@@ -43,6 +43,15 @@ func (e *Engine) newCtx(key string) *FuncCtx {
 		}
 		return true
 	})
+	// a "loop N ..." clause for a loop the function does not have would
+	// silently constrain nothing
+	if c.contract != nil {
+		for _, cl := range c.contract.Clauses {
+			if (cl.Kind == "invariant" || cl.Kind == "decreases" || cl.Kind == "peel") && cl.Loop > n {
+				c.limit = fmt.Sprintf("'loop %d ...' clause but the function has %d loops", cl.Loop, n)
+			}
+		}
+	}
 	// call ordinals per callee key (source order), for "at call K #n" clauses
 	c.callOrd = map[*ast.CallExpr]int{}
 	counts := map[string]int{}
